@@ -16,6 +16,7 @@ func init() {
 			"the meta page write happens inside the metalock critical section and pending pages are released only at writer begin, under metalock. " +
 			"NOT decided: equality of the whole view with a model, that the RIGHT pending sets are released (value-level, see C09/C10), goroutine schedules beyond lock-set reasoning. One call path violating this property on the current tree is reported under C08.R4 (known finding). Round 3: the parallel slices txPending.ids/alloctx stay index-aligned (twin writes); a read-only handle takes the shared lock before reading content. Round 4: RemoveReadonlyTXID removes exactly one registration (readers are a multiset).",
 		Run: func(c *Ctx) {
+			ruleMappingForgottenOnlyWithUnmap(c, "C02.R15")
 			ruleOneRegistrationRemoved(c, "C02.R14") // a reader stays registered until IT closes
 			rulePendingSlicesAligned(c, "C02.R12") // the reader-extent release decides per page by alloctx[i]
 			c17R1(c, "C02.R13") // a reader inside a read-only handle is invisible to a writer in another handle: only the shared file lock keeps that writer out
@@ -292,13 +293,13 @@ func c02R4(c *Ctx, id string) {
 
 func c02R5(c *Ctx, id string) {
 	c.rule(id, "mapping-fields-writers", 8, func() {
-		allowed := map[string]bool{"bbolt.mmap": true, "bbolt.munmap": true, "bbolt.(*DB).mmap": true, "bbolt.(*DB).invalidate": true}
+		allowed := map[string]bool{"bbolt.mmap": true, "bbolt.munmap": true, "bbolt.(*DB).mmap": true, "bbolt.(*DB).invalidate": true, "bbolt.(*DB).munmap": true} // db.munmap itself when invalidate is written in line (how the description may be cleared is C02.R15 / C17.R8)
 		fns := c.P.FnsIn(rootPkg)
 		for _, fname := range []string{"data", "dataref", "datasz", "meta0", "meta1"} {
 			f := c.dbField(fname)
 			for i, st := range storesToField(fns, f) {
 				n := shortFn(st.Fn)
-				c.check(fmt.Sprintf("%s:%s:stores-DB.%s#%d", id, n, fname, i+1), st.Fn, st.Instr.Pos(), "DB."+fname+" (describes the mapping) is written only by the map/unmap functions", allowed[n], n+" rewrites the mapping description")
+				c.check(fmt.Sprintf("%s:%s:stores-DB.%s#%d", id, n, fname, i+1), st.Fn, st.Instr.Pos(), "DB."+fname+" (describes the mapping) is written only by the map/unmap functions", allowed[shortFn(topLevel(st.Fn))], n+" rewrites the mapping description")
 			}
 		}
 	})
